@@ -37,6 +37,7 @@ type State struct {
 	loopPre map[int]*State // state at loop entry (before havoc), for pre()
 	loopSnap map[int]*loopSnap // state right after the loop havoc, to validate the havoc set at the back edge
 	writeLog []string           // heap arrays written so far on this path (allocation initialisers excluded)
+	virgin   map[string]bool    // heap arrays whose current version is a fresh symbol nobody has read yet
 	allocs []Term // references allocated in this activation
 	boxed  map[string]Value // interface term -> the value it was made from
 	sinkOf map[string]Value // pointer term of a wrapping writer (bufio.Writer, ...) -> the io.Writer value it writes to
@@ -84,6 +85,10 @@ func (s *State) clone() *State {
 		n.inLoop[k] = v
 	}
 	n.writeLog = append([]string(nil), s.writeLog...)
+	n.virgin = make(map[string]bool, len(s.virgin))
+	for k, v := range s.virgin {
+		n.virgin[k] = v
+	}
 	n.loopSnap = make(map[int]*loopSnap, len(s.loopSnap))
 	for k, v := range s.loopSnap {
 		n.loopSnap[k] = v
@@ -215,6 +220,7 @@ func (x *Exec) heapSet(st *State, kind string, base types.Type, leaf Leaf, val T
 	f := x.fresh(st, name, val.Sort)
 	st.assume(mkEq(f, val))
 	st.heap[name] = f
+	delete(st.virgin, name)
 	x.setHeapTop(st, name)
 	if !x.initWrite {
 		st.writeLog = append(st.writeLog, name)
@@ -249,6 +255,7 @@ func (x *Exec) heapHavoc(st *State, name string) {
 	}
 	f := x.fresh(st, name, x.heapSort(m.kind, m.leaf.Sort))
 	st.heap[name] = f
+	delete(st.virgin, name)
 	x.setHeapTop(st, name)
 }
 
@@ -324,6 +331,9 @@ func (x *Exec) loadLeaf(st *State, p *Ptr, j int) Term {
 func (x *Exec) heapCurE(st *State, kind string, base types.Type, leaf Leaf) Term {
 	name := heapName(kind, base, leaf.Path)
 	if t, ok := st.heap[name]; ok {
+		if st.virgin[name] {
+			delete(st.virgin, name)
+		}
 		return t
 	}
 	if ep, ok := st.heap["!epoch"]; ok {
